@@ -67,7 +67,7 @@ impl Sink {
     }
 }
 
-const PER_INPUT_LIMIT_S: u64 = 60;
+const PER_INPUT_LIMIT_S: u64 = 120;
 const PROBE_LIMIT_S: u64 = 300;
 
 fn spawn_monitor(start: std::time::Instant) {
@@ -564,13 +564,13 @@ pub fn run(ctx: &Ctx) -> Outcome {
     let exhaustive = scopes.iter().all(|s| s["completed"].as_bool().unwrap_or(false));
     out.cov("evaluations", json!(evaluations));
     out.cov("distinct_nontrivial", json!(evaluations.saturating_sub(1)));
-    out.cov("rule", json!("every input of the four exhaustive families (all distinct texts; non-trivial = non-empty) is given to the real generate under catch_unwind, in a child process with a per-input watchdog of 60 s; plus one bound probe per repeatable construct at the stated bounds, each in its own child (a probe that does not finish within 300 s is reported as inconclusive, not as a violation: slow is not looping); plus growth series that tell exponential cost from polynomial cost by the ratio of CPU times at consecutive sizes"));
+    out.cov("rule", json!("every input of the four exhaustive families (all distinct texts; non-trivial = non-empty) is given to the real generate under catch_unwind, in a child process with a per-input watchdog of 120 s; plus one bound probe per repeatable construct at the stated bounds, each in its own child (a probe that does not finish within 300 s is reported as inconclusive, not as a violation: slow is not looping); plus growth series that tell exponential cost from polynomial cost by the ratio of CPU times at consecutive sizes"));
     out.cov("exhaustive", json!(exhaustive));
     out.cov("exhaustive_note", json!("exhaustive refers to the four small-scope families only; between them and the bound probes the claim rests on the small-scope hypothesis (the 64-KiB string space is not enumerable)"));
     out.cov("scopes", json!(scopes));
     out.cov("bound_probes", json!(probe_report));
     out.cov("samples", json!(["#[€]struct A", "start A\nstruct A(E)\nenum E {}\nterminal Tok {}", "$start(", "a<a<()>>"]));
-    out.assumptions = vec!["an abort is observed as the death of the child process; a hang as no return within 60 s on the small inputs of the exhaustive families (about 10^5 times their normal cost)".into(), "main-thread stack of the child (8 MiB) and rayon worker stacks (2 MiB) stand for 'the host stack'".into()];
+    out.assumptions = vec!["an abort is observed as the death of the child process; a hang as no return within 120 s on the small inputs of the exhaustive families (about 10^5 times their normal cost)".into(), "main-thread stack of the child (8 MiB) and rayon worker stacks (2 MiB) stand for 'the host stack'".into()];
     out
 }
 
